@@ -1158,7 +1158,9 @@ def solve(objfun, x0, h=None, lh=None, prox_uh=None, argsf=(), argsh=(), argspro
             if do_logging:
                 module_logger.info("Unsuccessful run with new f = %s compared to old f = %s" % (objmin2, objmin))
 
-    if nruns - last_successful_run >= params("restarts.max_unsuccessful_restarts"):
+    # Only report this if it is the reason the hard restart loop above stopped (otherwise keep the run's own exit information)
+    if params("restarts.use_restarts") and not params("restarts.use_soft_restarts") and nf < maxfun and exit_info.able_to_do_restart() \
+            and nruns - last_successful_run >= params("restarts.max_unsuccessful_restarts"):
         exit_info = ExitInformation(EXIT_SUCCESS, "Reached maximum number of unsuccessful restarts")
 
     # Process final return values & package up
